@@ -23,7 +23,9 @@
    introduced by the intermediate QR / orthonormalize calls).  Both are searched by prop() against scipy.linalg.expm. *)
 From Coq Require Import ZArith QArith Qcanon List Bool Lia.
 From PT Require Import Base.Scalar Base.Field Base.BigSum Base.Mx Model.Tensor Model.Operation Model.Sweeps
-  Proofs.SweepsSched Proofs.SweepsFlow Proofs.SweepsCheck Proofs.SweepsExample.
+  Proofs.SweepsSched Proofs.SweepsFlow Proofs.SweepsCheck Proofs.SweepsExample
+  Proofs.OperationEntries Proofs.SweepsCanon Proofs.ReverseDefs Proofs.ReverseGauge Proofs.ReverseQR Proofs.ReverseFwd Proofs.ReversePair
+  Proofs.ReverseL1 Proofs.ReverseTop.
 Import ListNotations.
 
 Theorem C09_tdvp1_schedule_palindrome : forall L, rev (sched1 L) = sched1 L.
@@ -103,3 +105,96 @@ Example C09_schedule_nonvacuous :
   | _, _ => false
   end = true.
 Proof. vm_compute. reflexivity. Qed.
+
+(* =====================================================================================================================
+   REVERSIBILITY AT THE LEVEL OF THE DENSE STATE (second sentence of the property), relative to an explicit contract for
+   "exact local exponentials" (Proofs/ReverseDefs.v):
+     (a) kexp_flow / kexp0_flow : the local solver is a flow in its time argument (solver(0) = id,
+         solver(t) o solver(s) = solver(s + t)), homogeneous (flow of a linear problem), shape preserving, and does not
+         depend on the call position;
+     (b) kexp_covariant / kexp0_covariant : the result transforms like the tensor when the bond bases of the local problem
+         (environment blocks and tensor) are changed by unitaries  A[s] -> Gl^H A[s] Gr,  L[w] -> Gl^T L[w] conj(Gl),
+         R[w] -> Gr^H R[w] Gr  (true for exp(t * apply_local_hamiltonian L R W); see C09_local_problem_gauge_covariant);
+     (c) per recorded call (rev_tr_ok, Proofs/ReverseFwd.v): every QR answer satisfies LAPACK's contract qr_ok, is well
+         formed and has an INVERTIBLE R factor, and (first call only) every evolved bond matrix is invertible -- full rank:
+         the bond dimensions do not change.  That two valid factorisations then differ by a unitary on the new bond is
+         PROVED (Proofs/ReverseQR.v, uniq_left / uniq_right), not assumed;
+     (d) orth_regauge: the second call's psi.orthonormalize(mode='right'), whose input is already right-canonical, only
+         re-gauges the bonds by unitaries and divides the first tensor by the norm it reports (nrm2 invertible).
+   The statement: psi0' = the normalised input of the first call, (A1, qD1) the in-place result of n steps with dt, A2 the
+   result of n further steps with -dt on it, nrm2 the number returned by the second call:  <w|psi0'> = nrm2 * <w|A2>
+   for every basis word w.  All L >= 1, all n, every bond profile Ds with Ds 0 = Ds L = 1, any scalar dt of any cring. *)
+
+(* L = 1: contract (a) alone; the orth oracle of the second call only has to preserve amplitudes up to its norm (C01) *)
+Theorem C09_reversible_L1 : forall (R : cring) orth qr (kexp : kexp_t R) (kexp0 : kexp0_t R) (H : mpo R) psi dt hdt n d
+    A1 qD1 nrm1 tr1 A2 qD2 nrm2 tr2,
+  length (o_A H) = 1%nat ->
+  tdvp_singlesite orth qr kexp kexp0 H psi dt hdt n = Some (A1, qD1, nrm1, tr1) ->
+  let psi1 := mkmps (m_qd psi) qD1 A1 in
+  tdvp_singlesite orth qr kexp kexp0 H psi1 (kopp R dt) (kopp R hdt) n = Some (A2, qD2, nrm2, tr2) ->
+  kexp_flow d kexp ->
+  Forall (wsite d 1 1) (m_A (fst (orth psi))) ->
+  Forall (wsite d 1 1) (m_A (fst (orth psi1))) ->
+  (forall w, In w (words d 1) -> amp A1 w = kmul R (snd (orth psi1)) (amp (m_A (fst (orth psi1))) w)) ->
+  nrm2 = snd (orth psi1) /\
+  forall w, In w (words d 1) -> amp (m_A (fst (orth psi))) w = kmul R nrm2 (amp A2 w).
+Proof. exact reversible_L1. Qed.
+Print Assumptions C09_reversible_L1.
+
+(* the environment updates are covariant under unitary bond gauges, over any cring *)
+Theorem C09_env_steps_gauge_covariant : forall (R : cring) d Dl Dr Dwl Dwr (A : site R) (W : osite R) (Gl Gr : mx R),
+  (0 < d)%nat -> wsite d Dl Dr A -> osite_ok d Dwl Dwr W ->
+  (forall E, (0 < Dwl)%nat -> wenv Dwl Dl Dl E -> unitary Dl Gl -> wmx Dr Dr Gr ->
+     contraction_operator_step_left (gsite Gl Gr A) (gsite Gl Gr A) W (genvL Gl E) =
+     genvL Gr (contraction_operator_step_left A A W E)) /\
+  (forall E, (0 < Dwr)%nat -> wenv Dwr Dr Dr E -> unitary Dr Gr -> wmx Dl Dl Gl ->
+     contraction_operator_step_right (gsite Gl Gr A) (gsite Gl Gr A) W (genvR Gr E) =
+     genvR Gl (contraction_operator_step_right A A W E)).
+Proof.
+  intros R d Dl Dr Dwl Dwr A W Gl Gr Hd HA HW. split; intros E Hw HE HU HG.
+  - exact (opstep_left_gauge R d Dl Dr Dwl Dwr A W E Gl Gr Hd Hw HA HW HE HU HG).
+  - exact (opstep_right_gauge R d Dl Dr Dwl Dwr A W E Gl Gr Hd Hw HA HW HE HU HG).
+Qed.
+Print Assumptions C09_env_steps_gauge_covariant.
+
+(* contract (c) is a theorem once R is invertible: two factorisations (isometry) x (invertible) of the same tensor differ by a unitary *)
+Theorem C09_qr_gauge_unique : forall (R : cring) d Dl k (C T0 : mx R) (Aq B0 : site R), (0 < d)%nat ->
+  wsite d Dl k Aq -> wsite d Dl k B0 -> left_iso Aq -> left_iso B0 -> invertible k C -> invertible k T0 ->
+  rmul_site Aq C = rmul_site B0 T0 ->
+  exists U, unitary k U /\ Aq = rmul_site B0 U /\ C = mulmx (adjmx U) T0.
+Proof. exact uniq_left. Qed.
+Print Assumptions C09_qr_gauge_unique.
+
+(* adjacent inverse pairs: the backward right-to-left body at site i+1 undoes the forward left-to-right body at site i, up to
+   a new unitary on the bond (i, i+1); [Rel] = "gauge equivalent, the scalar c on the centre tensor" *)
+Theorem C09_adjacent_pair_cancels : forall (R : cring) qr (kexp : kexp_t R) (kexp0 : kexp0_t R) Hs qd d Ds DW,
+  (0 < d)%nat -> (forall j, (j < length Hs)%nat -> osite_ok d (DW j) (DW (S j)) (nth j Hs [])) -> (forall j, (0 < DW j)%nat) ->
+  kexp_flow d kexp -> kexp0_flow kexp0 -> kexp_covariant d kexp -> kexp0_covariant kexp0 ->
+  forall dt hdt c ci, kmul R c ci = k1 R ->
+  forall (X b : sw R) i, FI Hs d Ds DW i X -> (S i < length Hs)%nat ->
+  rev_tr_ok qr kexp0 true dt hdt (s_tr (tdvp1_lr qr kexp kexp0 Hs qd dt hdt X i)) ->
+  Rel Hs Ds c (S i) (tdvp1_lr qr kexp kexp0 Hs qd dt hdt X i) b ->
+  rev_tr_ok qr kexp0 false (kopp R dt) (kopp R hdt) (s_tr (tdvp1_rl qr kexp kexp0 Hs qd (kopp R dt) (kopp R hdt) b (S i))) ->
+  Rel Hs Ds c i X (tdvp1_rl qr kexp kexp0 Hs qd (kopp R dt) (kopp R hdt) b (S i)).
+Proof. exact undo_lr. Qed.
+Print Assumptions C09_adjacent_pair_cancels.
+
+(* the full statement, every L >= 1 and every number of steps *)
+Theorem C09_reversible : forall (R : cring) orth qr (kexp : kexp_t R) (kexp0 : kexp0_t R) (H : mpo R) psi dt hdt n d Ds DW
+    A1 qD1 nrm1 tr1 A2 qD2 nrm2 tr2,
+  let L := length (o_A H) in
+  tdvp_singlesite orth qr kexp kexp0 H psi dt hdt n = Some (A1, qD1, nrm1, tr1) ->
+  let psi1 := mkmps (m_qd psi) qD1 A1 in
+  tdvp_singlesite orth qr kexp kexp0 H psi1 (kopp R dt) (kopp R hdt) n = Some (A2, qD2, nrm2, tr2) ->
+  (0 < d)%nat -> (forall j, (j < L)%nat -> osite_ok d (DW j) (DW (S j)) (nth j (o_A H) [])) -> (forall j, (0 < DW j)%nat) ->
+  DW 0%nat = 1%nat -> DW L = 1%nat -> Ds 0%nat = 1%nat -> Ds L = 1%nat ->
+  kexp_flow d kexp -> kexp0_flow kexp0 -> kexp_covariant d kexp -> kexp0_covariant kexp0 ->
+  (forall j, (j < L)%nat -> wsite d (Ds j) (Ds (S j)) (nth j (m_A (fst (orth psi))) [])) ->
+  (forall j, (0 < j < L)%nat -> right_iso (nth j (m_A (fst (orth psi))) [])) ->
+  rev_tr_ok qr kexp0 true dt hdt (rev tr1) ->
+  rev_tr_ok qr kexp0 false (kopp R dt) (kopp R hdt) (rev tr2) ->
+  orth_regauge Ds L A1 (orth psi1) ->
+  nrm2 = snd (orth psi1) /\
+  forall w, In w (words d L) -> amp (m_A (fst (orth psi))) w = kmul R nrm2 (amp A2 w).
+Proof. exact tdvp1_reversible. Qed.
+Print Assumptions C09_reversible.
